@@ -1,6 +1,7 @@
 package main
 
 import (
+	"fmt"
 	"time"
 
 	"verif/harness/ev"
@@ -21,6 +22,10 @@ const (
 	scJoinLeave = "joinleave:4:6:84"
 	scLaggards7 = "laggards:7:2:14:60:70"
 	scLaggards4 = "laggards:4:1:8:40:50"
+	scRejoin4   = "rejoin:4:6:50:90"
+	scRefused3  = "refused:3:5:84"
+	scPart4     = "partition:4:2:10:24:40"
+	scPart5     = "partition:5:3:10:30:50"
 )
 
 func nodesOf(n int) []int {
@@ -47,12 +52,12 @@ func standardPhases(mons []string, suffix int, thorough bool) []Phase {
 		add("S1 n=3 depth 5 {6 gossip pairs,T0,T1,T2}", s1Items("s1:3:0", 5, 2, mons))
 	}
 	// S3: deviation bounded around fair seeds
-	seeds := []string{scStatic3, scStatic4, scSilent4, scSilent5, scLate4, scJoin3, scLeave4, scJoin2, scTwoLeaves, scJoinLeave, scLaggards7, scLaggards4}
+	seeds := []string{scStatic3, scStatic4, scSilent4, scSilent5, scLate4, scJoin3, scLeave4, scJoin2, scTwoLeaves, scJoinLeave, scLaggards7, scLaggards4, scRejoin4, scRefused3, scPart4, scPart5}
 	var d0 []sched.Item
 	for _, s := range seeds {
 		d0 = append(d0, s3Items(s, 0, nil, nil, mons, suffix)...)
 	}
-	add("S3 d=0 on 12 seeds (static 3/4, silent 4/5, late witness, join 3->4, leave 4->3, join 2->3, two leaves in one block, join+leave in one block, 2 one-way laggards of 7, 1 of 4)", d0)
+	add("S3 d=0 on 16 seeds (static 3/4, silent 4/5, late witness, join 3->4, leave 4->3, join 2->3, two leaves in one block, join+leave in one block, 2 one-way laggards of 7, 1 of 4, leave then re-join, join refused by the application, partitions 2|2 and 3|2 that heal)", d0)
 	// S2: seed prefix + exhaustive window + fair suffix
 	w3 := "win:3:-1:" + scStatic3
 	wj := "win:4:-1:" + scJoin3
@@ -63,10 +68,34 @@ func standardPhases(mons []string, suffix int, thorough bool) []Phase {
 		add("S2 join3to4, windows inside the activation window (positions 24,40), length 2 over 22 actions", s2Items(wj, []int{24, 40}, 2, n4, mons, suffix))
 	}
 	if !thorough {
-		add("S3 d<=1 static3 (every position, alphabet level 0)", s3Items(scStatic3, 1, seedPositions(scStatic3, 0, 0, 1), devAlphabet(nodesOf(3), 0, 0), mons, suffix))
-		add("S3 d<=1 join3to4 (every 3rd position, level 0)", s3Items(scJoin3, 1, seedPositions(scJoin3, 2, 0, 3), devAlphabet(nodesOf(4), 0, 0), mons, suffix))
-		add("S3 d<=1 leave4to3 (every 4th position, level 0)", s3Items(scLeave4, 1, seedPositions(scLeave4, 1, 0, 4), devAlphabet(nodesOf(4), 0, 0), mons, suffix))
-		add("S3 d<=1 static4 late witness (every 4th position, level 0, one silent allowed)", s3Items(scLate4, 1, seedPositions(scLate4, 0, 0, 4), devAlphabet(nodesOf(4), 0, 1), mons, suffix))
+		d1 := func(label, sc string, n, from, stride, silent int) {
+			add(fmt.Sprintf("S3 d<=1 %s (every %d. position from %d, alphabet level 0%s)", label, stride, from, map[bool]string{true: ", one silent allowed", false: ""}[silent > 0]),
+				s3Items(sc, 1, seedPositions(sc, from, 0, stride), devAlphabet(nodesOf(n), 0, silent), mons, suffix))
+		}
+		// the single-deviation phases of the quick tier differ per property (the seeds closest to what the
+		// property speaks about); the thorough tier runs all of them for every property
+		switch mons[len(mons)-1] {
+		case "C02":
+			d1("static3", scStatic3, 3, 0, 1, 0)
+			d1("late witness", scLate4, 4, 0, 4, 1)
+			d1("one-way laggard of 4 (late witnesses of an active creator)", scLaggards4, 4, 1, 4, 0)
+			d1("leave4to3", scLeave4, 4, 1, 4, 0)
+		case "C04":
+			d1("static3", scStatic3, 3, 0, 1, 0)
+			d1("partition 2|2 that heals", scPart4, 4, 1, 4, 0)
+			d1("join3to4", scJoin3, 4, 2, 3, 0)
+			d1("one-way laggard of 4", scLaggards4, 4, 2, 6, 0)
+		case "C10":
+			d1("join3to4", scJoin3, 4, 2, 3, 0)
+			d1("leave4to3", scLeave4, 4, 1, 4, 0)
+			d1("leave then re-join", scRejoin4, 4, 3, 10, 0)
+			d1("join refused by the application", scRefused3, 3, 1, 4, 0)
+		default:
+			d1("static3", scStatic3, 3, 0, 1, 0)
+			d1("join3to4", scJoin3, 4, 2, 3, 0)
+			d1("leave4to3", scLeave4, 4, 1, 4, 0)
+			d1("static4 late witness", scLate4, 4, 0, 4, 1)
+		}
 	} else {
 		add("S3 d<=1 static3 (every position, full alphabet)", s3Items(scStatic3, 1, seedPositions(scStatic3, 0, 0, 1), devAlphabet(nodesOf(3), 1, 0), mons, suffix))
 		add("S3 d<=1 join3to4 (every position, level 0)", s3Items(scJoin3, 1, seedPositions(scJoin3, 0, 0, 1), devAlphabet(nodesOf(4), 0, 0), mons, suffix))
@@ -75,6 +104,10 @@ func standardPhases(mons []string, suffix int, thorough bool) []Phase {
 		add("S3 d<=1 static4 (every 2nd position, full alphabet + silent)", s3Items(scStatic4, 1, seedPositions(scStatic4, 0, 0, 2), devAlphabet(nodesOf(4), 1, 1), mons, suffix))
 		add("S3 d<=1 silent5 (every 2nd position, level 0)", s3Items(scSilent5, 1, seedPositions(scSilent5, 0, 0, 2), devAlphabet(nodesOf(5), 0, 0), mons, suffix))
 		add("S3 d<=1 join2to3 (every position, level 0)", s3Items(scJoin2, 1, seedPositions(scJoin2, 0, 0, 1), devAlphabet(nodesOf(3), 0, 0), mons, suffix))
+		add("S3 d<=1 leave then re-join (every 2nd position, level 0)", s3Items(scRejoin4, 1, seedPositions(scRejoin4, 0, 0, 2), devAlphabet(nodesOf(4), 0, 0), mons, suffix))
+		add("S3 d<=1 join refused by the application (every 2nd position, level 0)", s3Items(scRefused3, 1, seedPositions(scRefused3, 0, 0, 2), devAlphabet(nodesOf(3), 0, 0), mons, suffix))
+		add("S3 d<=1 partition 2|2 that heals (every 2nd position, level 0)", s3Items(scPart4, 1, seedPositions(scPart4, 0, 0, 2), devAlphabet(nodesOf(4), 0, 0), mons, suffix))
+		add("S3 d<=1 one-way laggard of 4 (every 2nd position, level 0)", s3Items(scLaggards4, 1, seedPositions(scLaggards4, 0, 0, 2), devAlphabet(nodesOf(4), 0, 0), mons, suffix))
 		add("S3 d<=1 two laggards of 7 (every 8th position, level 0)", s3Items(scLaggards7, 1, seedPositions(scLaggards7, 0, 0, 8), devAlphabet(nodesOf(7), 0, 0), mons, suffix))
 		// S2 after the single deviations: length-3 windows are the most expensive phases
 		add("S2 static3, windows at 8,12,15,17,20,22,26,30, length 3 over 12 actions", s2Items(w3, []int{8, 12, 15, 17, 20, 22, 26, 30}, 3, n3, mons, suffix))
